@@ -287,9 +287,15 @@ pub fn inventory(ts: TokenStream) -> Result<Vec<Value>, String> {
     walk("", &file.items, &mut out);
     // a derive that meets a hand-written impl of the same trait for the same type (same module):
     // two impls of one trait, E0119
+    // a bare derive (`Clone`) is matched by its name, a qualified one (`::serde::Deserialize`) by its
+    // whole path: a foreign macro that merely shares the short name is a different macro
+    let full = |p: &str| -> String { p.split('<').next().unwrap_or(p).trim().trim_start_matches("::").replace(' ', "") };
     let last = |p: &str| -> String {
-        let p = p.split('<').next().unwrap_or(p);
-        p.rsplit("::").next().unwrap_or(p).trim().to_string()
+        let p = full(p);
+        p.rsplit("::").next().unwrap_or(&p).to_string()
+    };
+    let same = |derive: &str, tr: &str| -> bool {
+        if full(derive).contains("::") { full(derive) == full(tr) } else { last(derive) == last(tr) }
     };
     let impls: Vec<(String, String, String)> = out
         .iter()
@@ -298,7 +304,7 @@ pub fn inventory(ts: TokenStream) -> Result<Vec<Value>, String> {
             (
                 v["mod"].as_str().unwrap_or("").to_string(),
                 v["for_"].as_str().unwrap_or("").to_string(),
-                last(v["trait_"].as_str().unwrap_or("")),
+                v["trait_"].as_str().unwrap_or("").to_string(),
             )
         })
         .collect();
@@ -311,9 +317,12 @@ pub fn inventory(ts: TokenStream) -> Result<Vec<Value>, String> {
                 .unwrap_or_default()
                 .iter()
                 .filter_map(|d| d.as_str().map(|d| d.to_string()))
-                .filter(|d| impls.iter().any(|(im, f, t)| *im == m && *f == n && *t == last(d)))
+                .filter(|d| impls.iter().any(|(im, f, t)| *im == m && *f == n && same(d, t)))
                 .collect();
             v["derive_conflicts"] = json!(conflicts);
+            // traits implemented by hand for this type (full path, generics dropped)
+            let manual: Vec<String> = impls.iter().filter(|(im, f, _)| *im == m && *f == n).map(|(_, _, t)| full(t)).collect();
+            v["manual_impls"] = json!(manual);
         }
     }
     Ok(out)
